@@ -44,7 +44,7 @@ func (a *c21RaceApp) IsRecognized(pk *operator.PublicKey) (bool, error) {
 	case c21Yes:
 		return true, nil
 	case c21Err:
-		return false, c21ErrApp
+		return (a.idx+p)%2 == 0, c21ErrApp
 	}
 	return false, nil
 }
